@@ -1,11 +1,15 @@
 //! Interpreter from dynamic values into concrete tachys view types.
 //!
 //! `Dec` is implemented *generically* for the type constructors, so every Rust type written with
-//! them (see the `shapes!` list in `src/bin/c03.rs`) is a concrete, non-erased tachys view type whose
-//! own `Render::{build, rebuild}` and `Mountable` impls run.  `AnyView` is decoded through the
-//! registry of top-level shapes (type tokens -> `into_any()` of that concrete type).
-use crate::dynv::{ATy, AVal, TextKind, TyD, ValD};
-use std::{borrow::Cow, sync::Arc};
+//! them (see the `shapes!` list in `src/bin/c03.rs`) names a concrete, non-erased tachys view type
+//! (`Dec::V`) whose own `Render::{build, rebuild}` and `Mountable` impls run.  For most types
+//! `V = Self`; the markers `Cl<A>` / `Ow<A>` (an attribute item passed through `into_cloneable()` /
+//! `into_cloneable_owned()`) and `Sp<A, T>` (`T.add_any_attr(A)`: attribute spreading) name the type
+//! the conversion produces.  `AnyView` is decoded through the registry of top-level shapes (type
+//! tokens -> `into_any()` of that concrete type).
+use crate::dynv::{AKind, ATy, AVal, Conv, Form, TextKind, TyD, ValD};
+use oco_ref::Oco;
+use std::{borrow::Cow, marker::PhantomData, sync::Arc};
 use std::sync::OnceLock;
 use tachys::{
     either::{Either, EitherOf3},
@@ -24,9 +28,11 @@ use tachys::{
     },
 };
 
-pub trait Dec: RenderHtml + Send + Sized + 'static {
+pub trait Dec: 'static {
+    /// the tachys view type
+    type V: RenderHtml + Send + 'static;
     fn ty() -> TyD;
-    fn from_val(v: &ValD) -> Option<Self>;
+    fn from_val(v: &ValD) -> Option<Self::V>;
 }
 
 // ------------------------------------------------------------------------------- type-erased case
@@ -37,7 +43,7 @@ pub trait DynCase {
     fn unmount(&mut self) -> bool;
 }
 
-pub struct Case<T: Dec>(Option<T::State>);
+pub struct Case<T: Dec>(Option<<T::V as Render>::State>);
 
 impl<T: Dec> DynCase for Case<T> {
     fn build_mount(&mut self, v: &ValD, parent: &Element, marker: Option<&Node>) -> bool {
@@ -98,10 +104,11 @@ pub fn find_shape(ty: &TyD) -> Option<&'static Shape> {
 // ------------------------------------------------------------------------------- leaves
 
 impl Dec for String {
+    type V = Self;
     fn ty() -> TyD {
         TyD::Text
     }
-    fn from_val(v: &ValD) -> Option<Self> {
+    fn from_val(v: &ValD) -> Option<Self::V> {
         crate::dynv::text_of(v)
     }
 }
@@ -117,19 +124,21 @@ fn static_text(v: &ValD) -> Option<&'static str> {
 }
 
 impl Dec for &'static str {
+    type V = Self;
     fn ty() -> TyD {
         TyD::TextK(TextKind::Str)
     }
-    fn from_val(v: &ValD) -> Option<Self> {
+    fn from_val(v: &ValD) -> Option<Self::V> {
         static_text(v)
     }
 }
 
 impl Dec for Cow<'static, str> {
+    type V = Self;
     fn ty() -> TyD {
         TyD::TextK(TextKind::Cow)
     }
-    fn from_val(v: &ValD) -> Option<Self> {
+    fn from_val(v: &ValD) -> Option<Self::V> {
         match v {
             ValD::Text(s) => Some(Cow::Owned(s.clone())),
             ValD::Slice { .. } => Some(Cow::Borrowed(static_text(v)?)),
@@ -141,10 +150,11 @@ impl Dec for Cow<'static, str> {
 /// `Arc<str>` values are interned by contents: two values are the same `Arc` iff they are equal
 /// (`Arc<str>::rebuild` compares pointers)
 impl Dec for Arc<str> {
+    type V = Self;
     fn ty() -> TyD {
         TyD::TextK(TextKind::Arc)
     }
-    fn from_val(v: &ValD) -> Option<Self> {
+    fn from_val(v: &ValD) -> Option<Self::V> {
         use std::{collections::HashMap, sync::Mutex};
         static TABLE: OnceLock<Mutex<HashMap<String, Arc<str>>>> = OnceLock::new();
         let s = crate::dynv::text_of(v)?;
@@ -154,13 +164,14 @@ impl Dec for Arc<str> {
 }
 
 impl<T: Dec, const N: usize> Dec for [T; N] {
+    type V = [T::V; N];
     fn ty() -> TyD {
         TyD::Arr(N, Box::new(T::ty()))
     }
-    fn from_val(v: &ValD) -> Option<Self> {
+    fn from_val(v: &ValD) -> Option<Self::V> {
         match v {
             ValD::Tuple(vs) if vs.len() == N => {
-                let items: Vec<T> = vs.iter().map(T::from_val).collect::<Option<_>>()?;
+                let items: Vec<T::V> = vs.iter().map(T::from_val).collect::<Option<_>>()?;
                 items.try_into().ok()
             }
             _ => None,
@@ -169,19 +180,21 @@ impl<T: Dec, const N: usize> Dec for [T; N] {
 }
 
 impl Dec for () {
+    type V = Self;
     fn ty() -> TyD {
         TyD::Unit
     }
-    fn from_val(v: &ValD) -> Option<Self> {
+    fn from_val(v: &ValD) -> Option<Self::V> {
         matches!(v, ValD::Unit).then_some(())
     }
 }
 
 impl Dec for AnyView {
+    type V = Self;
     fn ty() -> TyD {
         TyD::Any
     }
-    fn from_val(v: &ValD) -> Option<Self> {
+    fn from_val(v: &ValD) -> Option<Self::V> {
         match v {
             ValD::Any(ty, inner) => (find_shape(ty)?.to_any)(inner),
             _ => None,
@@ -194,10 +207,11 @@ impl Dec for AnyView {
 macro_rules! dec_tuple {
     ($($T:ident $i:tt),+) => {
         impl<$($T: Dec),+> Dec for ($($T,)+) {
+            type V = ($($T::V,)+);
             fn ty() -> TyD {
                 TyD::Tuple(vec![$($T::ty()),+])
             }
-            fn from_val(v: &ValD) -> Option<Self> {
+            fn from_val(v: &ValD) -> Option<Self::V> {
                 match v {
                     ValD::Tuple(vs) if vs.len() == [$($i),+].len() => Some(($($T::from_val(&vs[$i])?,)+)),
                     _ => None,
@@ -212,10 +226,11 @@ dec_tuple!(A 0, B 1, C 2);
 dec_tuple!(A 0, B 1, C 2, D 3);
 
 impl<T: Dec> Dec for Option<T> {
+    type V = Option<T::V>;
     fn ty() -> TyD {
         TyD::Opt(Box::new(T::ty()))
     }
-    fn from_val(v: &ValD) -> Option<Self> {
+    fn from_val(v: &ValD) -> Option<Self::V> {
         match v {
             ValD::Opt(None) => Some(None),
             ValD::Opt(Some(x)) => Some(Some(T::from_val(x)?)),
@@ -225,10 +240,11 @@ impl<T: Dec> Dec for Option<T> {
 }
 
 impl<A: Dec, B: Dec> Dec for Either<A, B> {
+    type V = Either<A::V, B::V>;
     fn ty() -> TyD {
         TyD::Either(vec![A::ty(), B::ty()])
     }
-    fn from_val(v: &ValD) -> Option<Self> {
+    fn from_val(v: &ValD) -> Option<Self::V> {
         match v {
             ValD::Either(0, x) => Some(Either::Left(A::from_val(x)?)),
             ValD::Either(1, x) => Some(Either::Right(B::from_val(x)?)),
@@ -238,10 +254,11 @@ impl<A: Dec, B: Dec> Dec for Either<A, B> {
 }
 
 impl<A: Dec, B: Dec, C: Dec> Dec for EitherOf3<A, B, C> {
+    type V = EitherOf3<A::V, B::V, C::V>;
     fn ty() -> TyD {
         TyD::Either(vec![A::ty(), B::ty(), C::ty()])
     }
-    fn from_val(v: &ValD) -> Option<Self> {
+    fn from_val(v: &ValD) -> Option<Self::V> {
         match v {
             ValD::Either(0, x) => Some(EitherOf3::A(A::from_val(x)?)),
             ValD::Either(1, x) => Some(EitherOf3::B(B::from_val(x)?)),
@@ -252,10 +269,11 @@ impl<A: Dec, B: Dec, C: Dec> Dec for EitherOf3<A, B, C> {
 }
 
 impl<T: Dec> Dec for Vec<T> {
+    type V = Vec<T::V>;
     fn ty() -> TyD {
         TyD::Vec(Box::new(T::ty()))
     }
-    fn from_val(v: &ValD) -> Option<Self> {
+    fn from_val(v: &ValD) -> Option<Self::V> {
         match v {
             ValD::Vec(vs) => vs.iter().map(T::from_val).collect(),
             _ => None,
@@ -285,10 +303,11 @@ fn keyed_view(_: usize, k: u32) -> (fn(usize), KeyedItem) {
 }
 
 impl Dec for KeyedList {
+    type V = Self;
     fn ty() -> TyD {
         TyD::Keyed
     }
-    fn from_val(v: &ValD) -> Option<Self> {
+    fn from_val(v: &ValD) -> Option<Self::V> {
         match v {
             ValD::Keyed(ks) => Some(keyed(
                 ks.clone(),
@@ -309,69 +328,55 @@ pub trait Key: AttributeKey + Copy {
 macro_rules! keys {
     ($($T:ident),*) => { $(impl Key for attr::$T { const K: Self = attr::$T; })* };
 }
-keys!(Id, Title, Lang, Hidden, Value, Disabled);
+keys!(Id, Title, Lang, Hidden, Value, Disabled, Dir);
 
-pub trait DecAttr: Attribute + Send + Sized + 'static {
-    fn aty() -> ATy;
-    fn from_aval(v: &AVal) -> Option<Self>;
+/// a Rust string type an attribute value (or a style property name) can be given as
+pub trait StrForm: Clone + Send + 'static {
+    const F: Form;
+    fn mk(s: &str) -> Self;
+}
+impl StrForm for String {
+    const F: Form = Form::String;
+    fn mk(s: &str) -> Self {
+        s.to_string()
+    }
+}
+impl StrForm for &'static str {
+    const F: Form = Form::Str;
+    fn mk(s: &str) -> Self {
+        intern(s)
+    }
+}
+impl StrForm for Cow<'static, str> {
+    const F: Form = Form::Cow;
+    /// borrowed and owned values alternate (by the length of the contents)
+    fn mk(s: &str) -> Self {
+        if s.len() % 2 == 0 {
+            Cow::Borrowed(intern(s))
+        } else {
+            Cow::Owned(s.to_string())
+        }
+    }
+}
+impl StrForm for Arc<str> {
+    const F: Form = Form::Arc;
+    fn mk(s: &str) -> Self {
+        Arc::from(s)
+    }
+}
+impl StrForm for Oco<'static, str> {
+    const F: Form = Form::Oco;
+    /// borrowed, counted and owned values alternate
+    fn mk(s: &str) -> Self {
+        match s.len() % 3 {
+            0 => Oco::Borrowed(intern(s)),
+            1 => Oco::Counted(Arc::from(s)),
+            _ => Oco::Owned(s.to_string()),
+        }
+    }
 }
 
-impl<K: Key> DecAttr for Attr<K, String> {
-    fn aty() -> ATy {
-        ATy::Str(K::KEY.to_string())
-    }
-    fn from_aval(v: &AVal) -> Option<Self> {
-        match v {
-            AVal::Str(s) => Some(Attr(K::K, s.clone())),
-            _ => None,
-        }
-    }
-}
-impl<K: Key> DecAttr for Attr<K, Option<String>> {
-    fn aty() -> ATy {
-        ATy::OStr(K::KEY.to_string())
-    }
-    fn from_aval(v: &AVal) -> Option<Self> {
-        match v {
-            AVal::OStr(s) => Some(Attr(K::K, s.clone())),
-            _ => None,
-        }
-    }
-}
-impl<K: Key> DecAttr for Attr<K, bool> {
-    fn aty() -> ATy {
-        ATy::Bool(K::KEY.to_string())
-    }
-    fn from_aval(v: &AVal) -> Option<Self> {
-        match v {
-            AVal::Bool(b) => Some(Attr(K::K, *b)),
-            _ => None,
-        }
-    }
-}
-impl DecAttr for Class<String> {
-    fn aty() -> ATy {
-        ATy::Cls
-    }
-    fn from_aval(v: &AVal) -> Option<Self> {
-        match v {
-            AVal::Cls(s) => Some(class(s.clone())),
-            _ => None,
-        }
-    }
-}
-impl DecAttr for Class<Option<String>> {
-    fn aty() -> ATy {
-        ATy::OCls
-    }
-    fn from_aval(v: &AVal) -> Option<Self> {
-        match v {
-            AVal::OCls(s) => Some(class(s.clone())),
-            _ => None,
-        }
-    }
-}
-/// `(&'static str, bool)` needs a `'static` name: names come from a small interned table
+/// names come from a small interned table (`&'static str`)
 fn intern(s: &str) -> &'static str {
     use std::{collections::HashSet, sync::Mutex};
     static TABLE: OnceLock<Mutex<HashSet<&'static str>>> = OnceLock::new();
@@ -383,9 +388,97 @@ fn intern(s: &str) -> &'static str {
     t.insert(leaked);
     leaked
 }
-impl DecAttr for Class<(&'static str, bool)> {
+
+/// names one attribute item: `Out` is the tachys attribute type
+pub trait DecAttr: 'static {
+    type Out: Attribute + Send + 'static;
+    fn aty() -> ATy;
+    fn from_aval(v: &AVal) -> Option<Self::Out>;
+}
+
+fn aty_of(kind: AKind, form: Form, kform: Form) -> ATy {
+    ATy { kind, form, conv: Conv::None, kform }
+}
+
+impl<K: Key, V: StrForm + attr::AttributeValue> DecAttr for Attr<K, V>
+where
+    Attr<K, V>: Attribute + Send,
+{
+    type Out = Self;
     fn aty() -> ATy {
-        ATy::TCls
+        aty_of(AKind::Str(K::KEY.to_string()), V::F, Form::String)
+    }
+    fn from_aval(v: &AVal) -> Option<Self> {
+        match v {
+            AVal::Str(s) => Some(Attr(K::K, V::mk(s))),
+            _ => None,
+        }
+    }
+}
+impl<K: Key, V: StrForm + attr::AttributeValue> DecAttr for Attr<K, Option<V>>
+where
+    Attr<K, Option<V>>: Attribute + Send,
+{
+    type Out = Self;
+    fn aty() -> ATy {
+        aty_of(AKind::OStr(K::KEY.to_string()), V::F, Form::String)
+    }
+    fn from_aval(v: &AVal) -> Option<Self> {
+        match v {
+            AVal::OStr(s) => Some(Attr(K::K, s.as_deref().map(V::mk))),
+            _ => None,
+        }
+    }
+}
+impl<K: Key> DecAttr for Attr<K, bool> {
+    type Out = Self;
+    fn aty() -> ATy {
+        ATy::plain(AKind::Bool(K::KEY.to_string()))
+    }
+    fn from_aval(v: &AVal) -> Option<Self> {
+        match v {
+            AVal::Bool(b) => Some(Attr(K::K, *b)),
+            _ => None,
+        }
+    }
+}
+impl<V: StrForm + tachys::html::class::IntoClass> DecAttr for Class<V>
+where
+    Class<V>: Attribute + Send,
+    V: tachys::html::class::IntoClass,
+{
+    type Out = Self;
+    fn aty() -> ATy {
+        aty_of(AKind::Cls, V::F, Form::String)
+    }
+    fn from_aval(v: &AVal) -> Option<Self> {
+        match v {
+            AVal::Cls(s) => Some(class(V::mk(s))),
+            _ => None,
+        }
+    }
+}
+impl<V: StrForm + tachys::html::class::IntoClass> DecAttr for Class<Option<V>>
+where
+    Class<Option<V>>: Attribute + Send,
+    V: tachys::html::class::IntoClass,
+{
+    type Out = Self;
+    fn aty() -> ATy {
+        aty_of(AKind::OCls, V::F, Form::String)
+    }
+    fn from_aval(v: &AVal) -> Option<Self> {
+        match v {
+            AVal::OCls(s) => Some(class(s.as_deref().map(V::mk))),
+            _ => None,
+        }
+    }
+}
+/// `(&'static str, bool)` needs a `'static` name
+impl DecAttr for Class<(&'static str, bool)> {
+    type Out = Self;
+    fn aty() -> ATy {
+        ATy::plain(AKind::TCls)
     }
     fn from_aval(v: &AVal) -> Option<Self> {
         match v {
@@ -394,35 +487,119 @@ impl DecAttr for Class<(&'static str, bool)> {
         }
     }
 }
-impl DecAttr for Style<String> {
+impl<V: StrForm + tachys::html::style::IntoStyle> DecAttr for Style<V>
+where
+    Style<V>: Attribute + Send,
+    V: tachys::html::style::IntoStyle,
+{
+    type Out = Self;
     fn aty() -> ATy {
-        ATy::Sty
+        aty_of(AKind::Sty, V::F, Form::String)
     }
     fn from_aval(v: &AVal) -> Option<Self> {
         match v {
-            AVal::Sty(s) => Some(style(s.clone())),
+            AVal::Sty(s) => Some(style(V::mk(s))),
             _ => None,
         }
     }
 }
-impl DecAttr for Style<(String, String)> {
+impl<V: StrForm + tachys::html::style::IntoStyle> DecAttr for Style<Option<V>>
+where
+    Style<Option<V>>: Attribute + Send,
+    V: tachys::html::style::IntoStyle,
+{
+    type Out = Self;
     fn aty() -> ATy {
-        ATy::PSty
+        aty_of(AKind::OSty, V::F, Form::String)
     }
     fn from_aval(v: &AVal) -> Option<Self> {
         match v {
-            AVal::PSty(n, s) => Some(style((n.clone(), s.clone()))),
+            AVal::OSty(s) => Some(style(s.as_deref().map(V::mk))),
             _ => None,
         }
     }
 }
-impl DecAttr for Style<(String, Option<String>)> {
+impl<N: StrForm + AsRef<str>, V: StrForm + tachys::html::style::IntoStyleValue> DecAttr for Style<(N, V)>
+where
+    Style<(N, V)>: Attribute + Send,
+    V: tachys::html::style::IntoStyleValue,
+{
+    type Out = Self;
     fn aty() -> ATy {
-        ATy::OPSty
+        aty_of(AKind::PSty, V::F, N::F)
     }
     fn from_aval(v: &AVal) -> Option<Self> {
         match v {
-            AVal::OPSty(n, s) => Some(style((n.clone(), s.clone()))),
+            AVal::PSty(n, s) => Some(style((N::mk(n), V::mk(s)))),
+            _ => None,
+        }
+    }
+}
+impl<N: StrForm + AsRef<str>, V: StrForm> DecAttr for Style<(N, Option<V>)>
+where
+    Style<(N, Option<V>)>: Attribute + Send,
+    Option<V>: tachys::html::style::IntoStyleValue,
+    (N, Option<V>): tachys::html::style::IntoStyle,
+{
+    type Out = Self;
+    fn aty() -> ATy {
+        aty_of(AKind::OPSty, V::F, N::F)
+    }
+    fn from_aval(v: &AVal) -> Option<Self> {
+        match v {
+            AVal::OPSty(n, s) => Some(style((N::mk(n), s.as_deref().map(V::mk)))),
+            _ => None,
+        }
+    }
+}
+
+/// the item `A` passed through `Attribute::into_cloneable()` (what `add_any_attr` on tuples / `Vec`
+/// does to a spread attribute)
+pub struct Cl<A>(PhantomData<A>);
+/// the item `A` passed through `Attribute::into_cloneable_owned()` (what `into_any()` /
+/// `HtmlElement::into_owned()` does to every attribute of the element)
+pub struct Ow<A>(PhantomData<A>);
+
+impl<A: DecAttr> DecAttr for Cl<A>
+where
+    <A::Out as Attribute>::Cloneable: Send + 'static,
+{
+    type Out = <A::Out as Attribute>::Cloneable;
+    fn aty() -> ATy {
+        ATy { conv: Conv::Cloneable, ..A::aty() }
+    }
+    fn from_aval(v: &AVal) -> Option<Self::Out> {
+        Some(A::from_aval(v)?.into_cloneable())
+    }
+}
+impl<A: DecAttr> DecAttr for Ow<A>
+where
+    <A::Out as Attribute>::CloneableOwned: Send + 'static,
+{
+    type Out = <A::Out as Attribute>::CloneableOwned;
+    fn aty() -> ATy {
+        ATy { conv: Conv::Owned, ..A::aty() }
+    }
+    fn from_aval(v: &AVal) -> Option<Self::Out> {
+        Some(A::from_aval(v)?.into_cloneable_owned())
+    }
+}
+
+/// `T.add_any_attr(A)`: the attribute is spread over the top-level elements of `T` (tuples and
+/// `Vec` hand a clone of `into_cloneable()` to every member, `AnyView` becomes `AnyViewWithAttrs`)
+pub struct Sp<A, T>(PhantomData<(A, T)>);
+
+impl<A: DecAttr, T: Dec> Dec for Sp<A, T>
+where
+    <T::V as AddAnyAttr>::Output<A::Out>: RenderHtml + Send + 'static,
+{
+    type V = <T::V as AddAnyAttr>::Output<A::Out>;
+    fn ty() -> TyD {
+        TyD::Spread(A::aty(), Box::new(T::ty()))
+    }
+    fn from_val(v: &ValD) -> Option<Self::V> {
+        match v {
+            ValD::Spread(a, inner) => Some(T::from_val(inner)?.add_any_attr(A::from_aval(a)?)),
             _ => None,
         }
     }
@@ -430,18 +607,20 @@ impl DecAttr for Style<(String, Option<String>)> {
 
 /// an attribute tuple, applied to an element one `add_any_attr` at a time (the way the builder
 /// methods `.id(..)`, `.class(..)`, `.style(..)` do)
-pub trait DecAttrs: Attribute + Send + Sized + 'static {
+pub trait DecAttrs: 'static {
+    type Out: Attribute + Send + 'static;
     fn atys() -> Vec<ATy>;
-    fn apply<E>(e: HtmlElement<E, (), ()>, avs: &[AVal]) -> Option<HtmlElement<E, Self, ()>>
+    fn apply<E>(e: HtmlElement<E, (), ()>, avs: &[AVal]) -> Option<HtmlElement<E, Self::Out, ()>>
     where
         E: el::ElementType + Send;
 }
 
 impl DecAttrs for () {
+    type Out = ();
     fn atys() -> Vec<ATy> {
         vec![]
     }
-    fn apply<E>(e: HtmlElement<E, (), ()>, avs: &[AVal]) -> Option<HtmlElement<E, Self, ()>>
+    fn apply<E>(e: HtmlElement<E, (), ()>, avs: &[AVal]) -> Option<HtmlElement<E, (), ()>>
     where
         E: el::ElementType + Send,
     {
@@ -449,10 +628,11 @@ impl DecAttrs for () {
     }
 }
 impl<A: DecAttr> DecAttrs for (A,) {
+    type Out = (A::Out,);
     fn atys() -> Vec<ATy> {
         vec![A::aty()]
     }
-    fn apply<E>(e: HtmlElement<E, (), ()>, avs: &[AVal]) -> Option<HtmlElement<E, Self, ()>>
+    fn apply<E>(e: HtmlElement<E, (), ()>, avs: &[AVal]) -> Option<HtmlElement<E, Self::Out, ()>>
     where
         E: el::ElementType + Send,
     {
@@ -461,10 +641,11 @@ impl<A: DecAttr> DecAttrs for (A,) {
     }
 }
 impl<A: DecAttr, B: DecAttr> DecAttrs for (A, B) {
+    type Out = (A::Out, B::Out);
     fn atys() -> Vec<ATy> {
         vec![A::aty(), B::aty()]
     }
-    fn apply<E>(e: HtmlElement<E, (), ()>, avs: &[AVal]) -> Option<HtmlElement<E, Self, ()>>
+    fn apply<E>(e: HtmlElement<E, (), ()>, avs: &[AVal]) -> Option<HtmlElement<E, Self::Out, ()>>
     where
         E: el::ElementType + Send,
     {
@@ -473,10 +654,11 @@ impl<A: DecAttr, B: DecAttr> DecAttrs for (A, B) {
     }
 }
 impl<A: DecAttr, B: DecAttr, C: DecAttr> DecAttrs for (A, B, C) {
+    type Out = (A::Out, B::Out, C::Out);
     fn atys() -> Vec<ATy> {
         vec![A::aty(), B::aty(), C::aty()]
     }
-    fn apply<E>(e: HtmlElement<E, (), ()>, avs: &[AVal]) -> Option<HtmlElement<E, Self, ()>>
+    fn apply<E>(e: HtmlElement<E, (), ()>, avs: &[AVal]) -> Option<HtmlElement<E, Self::Out, ()>>
     where
         E: el::ElementType + Send,
     {
@@ -488,16 +670,35 @@ impl<A: DecAttr, B: DecAttr, C: DecAttr> DecAttrs for (A, B, C) {
         )
     }
 }
+impl<A: DecAttr, B: DecAttr, C: DecAttr, D: DecAttr> DecAttrs for (A, B, C, D) {
+    type Out = (A::Out, B::Out, C::Out, D::Out);
+    fn atys() -> Vec<ATy> {
+        vec![A::aty(), B::aty(), C::aty(), D::aty()]
+    }
+    fn apply<E>(e: HtmlElement<E, (), ()>, avs: &[AVal]) -> Option<HtmlElement<E, Self::Out, ()>>
+    where
+        E: el::ElementType + Send,
+    {
+        let [a, b, c, d] = avs else { return None };
+        Some(
+            e.add_any_attr(A::from_aval(a)?)
+                .add_any_attr(B::from_aval(b)?)
+                .add_any_attr(C::from_aval(c)?)
+                .add_any_attr(D::from_aval(d)?),
+        )
+    }
+}
 
 // ------------------------------------------------------------------------------- elements
 
 macro_rules! dec_element {
     ($T:ident, $f:ident, $name:literal) => {
         impl<At: DecAttrs> Dec for HtmlElement<el::$T, At, ()> {
+            type V = HtmlElement<el::$T, At::Out, ()>;
             fn ty() -> TyD {
                 TyD::Elem($name.into(), At::atys(), Box::new(TyD::Unit))
             }
-            fn from_val(v: &ValD) -> Option<Self> {
+            fn from_val(v: &ValD) -> Option<Self::V> {
                 match v {
                     ValD::Elem(avs, c) if **c == ValD::Unit => At::apply(el::$f(), avs),
                     _ => None,
@@ -510,10 +711,11 @@ macro_rules! dec_element_children {
     ($T:ident, $f:ident, $name:literal) => {
         dec_element!($T, $f, $name);
         impl<At: DecAttrs, C1: Dec> Dec for HtmlElement<el::$T, At, (C1,)> {
+            type V = HtmlElement<el::$T, At::Out, (C1::V,)>;
             fn ty() -> TyD {
                 TyD::Elem($name.into(), At::atys(), Box::new(TyD::Tuple(vec![C1::ty()])))
             }
-            fn from_val(v: &ValD) -> Option<Self> {
+            fn from_val(v: &ValD) -> Option<Self::V> {
                 match v {
                     ValD::Elem(avs, c) => match &**c {
                         ValD::Tuple(cs) if cs.len() == 1 => {
@@ -526,10 +728,11 @@ macro_rules! dec_element_children {
             }
         }
         impl<At: DecAttrs, C1: Dec, C2: Dec> Dec for HtmlElement<el::$T, At, (C1, C2)> {
+            type V = HtmlElement<el::$T, At::Out, (C1::V, C2::V)>;
             fn ty() -> TyD {
                 TyD::Elem($name.into(), At::atys(), Box::new(TyD::Tuple(vec![C1::ty(), C2::ty()])))
             }
-            fn from_val(v: &ValD) -> Option<Self> {
+            fn from_val(v: &ValD) -> Option<Self::V> {
                 match v {
                     ValD::Elem(avs, c) => match &**c {
                         ValD::Tuple(cs) if cs.len() == 2 => Some(
@@ -570,6 +773,12 @@ pub mod at {
     pub type Sty = Style<String>;
     pub type PSty = Style<(String, String)>;
     pub type OPSty = Style<(String, Option<String>)>;
+    pub type OSty = Style<Option<String>>;
+    /// the other string forms: r = `&'static str`, w = `Cow<'static, str>`, a = `Arc<str>`, o = `Oco<'static, str>`
+    pub type FR = &'static str;
+    pub type FW = Cow<'static, str>;
+    pub type FA = Arc<str>;
+    pub type FO = Oco<'static, str>;
 }
 
 /// silence "unused" for `Render` (needed for `.build()` in generic code)
